@@ -249,8 +249,15 @@ def side_by_side(kind, what, env_o, td_o, env_r, td_r, content, dtype, strict, r
     g_o, g_r = greedy_pair(env_o, td_o, env_r, td_r)
     for _ in range(n_eps):
         eo = play(env_o, td_o, gen=gen)
-        er = play(env_r, td_r, actions=eo["acts"]) if eo is not None else None
-        recs += records_for(kind, what, eo, er, content, dtype, strict, rng, g_o, g_r)
+        er, note = None, ""
+        if eo is not None:
+            try:
+                er = play(env_r, td_r, actions=eo["acts"])
+            except Exception as e:  # noqa: BLE001  the restored object cannot even be run: every step differs
+                code = -(zlib.crc32(type(e).__name__.encode()) & 0x3FFFFFFF)
+                er = {"mask": [[[code]] * len(m) for m in eo["mask"]], "done": eo["done"], "reward": [code] * len(eo["mask"])}
+                note = " [restored object raised %s: %s]" % (type(e).__name__, str(e)[:80])
+        recs += records_for(kind, what + note, eo, er, content, dtype, strict, rng, g_o, g_r)
     return recs
 
 
@@ -490,10 +497,12 @@ def replay_env(ad, fam, model, viol, samples, stats):
                 c, d, why = td_compare(td[torch.tensor(rows)], td_r)
                 if not (c and d):
                     bad("replay-content", group[rows[0]], [], why, route)
+                    continue          # not the instance that was saved: nothing to step
             if kind == "text":
                 c, why = sched_content(td[torch.tensor(rows)], td_r)
                 if not c:
                     bad("replay-content", group[rows[0]], [], why, route)
+                    continue
             pad = int(td_r["proc_times"].shape[-1]) if kind == "text" else 0
             genv = wrap(env_r)
             # forced solutions
